@@ -19,6 +19,9 @@ type Entity struct {
 	EventsInGet bool
 	DefaultStatusFilter []string
 	HasQueryBlock bool
+	// Schemas: objects / enums / oneofs declared inside the entity block (emitted as
+	// top-level types of the entity's file)
+	Schemas []*Decl
 }
 
 type EntityKey struct {
@@ -104,11 +107,17 @@ func renderEntity(o *w, e *Entity) {
 			o.p("command {")
 		}
 		o.indent++
+		for _, a := range c.Attrs {
+			o.p("%s", a)
+		}
 		for _, m := range c.Methods {
 			renderMethod(o, m)
 		}
 		o.indent--
 		o.p("}")
+	}
+	for _, d := range e.Schemas {
+		renderDecl(o, d)
 	}
 	if e.HasQueryBlock {
 		o.p("query {")
@@ -166,6 +175,10 @@ func (rc *refCompiler) entity(f *File, e *Entity) {
 	var keyFields []*Field
 	for _, k := range e.Keys {
 		keyFields = append(keyFields, k.Field)
+	}
+	for _, d := range e.Schemas {
+		d.File = f
+		rc.decl(d, file)
 	}
 	rc.message(msg("Keys"), file, keyFields, nil, "", nil)
 	rc.message(msg("Data"), file, e.Data, nil, "", nil)
@@ -270,7 +283,7 @@ func (rc *refCompiler) entity(f *File, e *Entity) {
 				out = spkg + "." + m.Name + "Response"
 				rc.message(out, sfile, m.Response, nil, "", nil)
 			}
-			svc.Methods = append(svc.Methods, CMethod{Name: m.Name, In: in, Out: out, Verb: strings.ToLower(m.Verb), Path: httpPath(base+"/c", m.Path)})
+			svc.Methods = append(svc.Methods, CMethod{Name: m.Name, In: in, Out: out, Verb: strings.ToLower(m.Verb), Path: httpPath(base+"/c", m.Path), Body: bodyOf(m.Verb)})
 		}
 		rc.c.Svcs[svc.FullName] = svc
 	}
@@ -334,6 +347,8 @@ func EntityCases(thorough bool) []*Case {
 			return []*EntityKey{{Field: fld(id, T(TKeyID62)), Primary: tr(true), Tenant: "account"}, {Field: fld("parentId", T(TKeyID62)), Foreign: "other.v1.Parent", Tenant: "org"}}
 		case 6: // shard key that is not primary, declared after the primary key
 			return []*EntityKey{{Field: fld(id, T(TKeyID62)), Primary: tr(true)}, {Field: fld("tenantId", T(TKeyID62)), ShardKey: true, Tenant: "account"}}
+		case 8: // key names that extend the names of the generated request fields (page, query)
+			return []*EntityKey{{Field: fld("pageId", T(TKeyID62)), Primary: tr(true)}, {Field: fld("queryIdent", T(TKeyID62)), Primary: tr(true)}}
 		case 7: // shard key first, and a primary key that is also a shard key
 			return []*EntityKey{{Field: fld("regionId", T(TKeyID62)), ShardKey: true}, {Field: fld(id, T(TKeyID62)), Primary: tr(true), ShardKey: true}}
 		}
@@ -351,6 +366,8 @@ func EntityCases(thorough bool) []*Case {
 			return []*Service{{Methods: []*Method{do}}}
 		case 2:
 			return []*Service{{Methods: []*Method{do, {Name: "Other", Verb: "PUT", Path: "/other", Request: []*Field{fld("v", T(TString))}}}}, {Name: "Admin", Methods: []*Method{{Name: "Purge", Verb: "DELETE", Path: "/purge", HasResponse: true}}}}
+		case 3: // command blocks that declare service options of their own
+			return []*Service{{Attrs: []string{`options.audience = ["public"]`}, Methods: []*Method{do}}, {Name: "Admin", Attrs: []string{`options.audience = ["internal", "ops"]`}, Methods: []*Method{{Name: "Purge", Verb: "DELETE", Path: "/purge", HasResponse: true}}}}
 		}
 		return nil
 	}
@@ -379,7 +396,7 @@ func EntityCases(thorough bool) []*Case {
 			out = append(out, c)
 		}
 	}
-	lim := []int{6, 8, 3, 3, 3, 3, 3, 4}
+	lim := []int{6, 9, 3, 3, 3, 3, 4, 4}
 	get := func(d *dims, i int) *int {
 		return []*int{&d.name, &d.keys, &d.data, &d.statuses, &d.events, &d.summaries, &d.commands, &d.query}[i]
 	}
@@ -399,12 +416,29 @@ func EntityCases(thorough bool) []*Case {
 			}
 		}
 	}
+	// types declared inside the entity block and used by its data, events and commands
+	for _, order := range []string{"schemas-last", "one-of-each"} {
+		f := file("t/v1", "a")
+		addr := obj("Address", fld("line", T(TString)))
+		kind := enumD("Kind", "ONE", "TWO")
+		pick := oneofD("Pick", fld("a", InlineOf(obj("", fld("x", T(TString))))))
+		addr.File, kind.File, pick.File = f, f, f
+		e := basicEntity("Foo", []*Field{fld("name", T(TString)), fld("address", RefTo(addr, "")), fld("kind", RefTo(kind, ""))}, []*Field{fld("address", RefTo(addr, "")), fld("pick", RefTo(pick, ""))})
+		e.Schemas = []*Decl{addr, kind, pick}
+		if order == "one-of-each" {
+			e.Schemas = []*Decl{addr}
+			e.Data = []*Field{fld("address", RefTo(addr, ""))}
+			e.Events = []*Event{{Name: "Create", Fields: []*Field{fld("address", RefTo(addr, ""))}}}
+		}
+		f.Add(e)
+		out = append(out, &Case{ID: "entity:nested-schemas:" + order, Family: "entities", Coord: "entities", P: &Program{Files: []*File{f}}})
+	}
 	if thorough {
 		for a := 0; a < 6; a++ {
-			for b := 0; b < 8; b++ {
+			for b := 0; b < 9; b++ {
 				for c := 0; c < 3; c++ {
 					for e := 0; e < 3; e++ {
-						for s := 0; s < 3; s++ {
+						for s := 0; s < 4; s++ {
 							for q := 0; q < 4; q++ {
 								add(dims{a, b, 1, 1, c, e, s, q})
 							}
